@@ -217,4 +217,53 @@ theorem C08_swapped_source_is_swapped_model (s : St) (idx : Nat) (ph : Phase) (h
   · exact swapped_add s idx hi ph hp
   · exact swapped_commit s idx hi ph hp
 
+/-! ### The batch time-out as a parameter of the derived writer: timer channel armed / nil
+
+`stepD … (armed := true)` is the code as it is, for **every** value of `WithBatchTimeout`: `time.NewTimer(d)` arms its
+channel whatever `d` is (≤ 0: it fires at once), so no configuration of the options removes the time-out alternative,
+and `C08_no_block_forever` (all queue sizes, batch sizes) is the theorem that no configuration blocks `StopBatchWriter`.
+`armed := false` is a nil channel in that `select` case ("time-out disabled", seeded changes r4-1 / r6-3): the derived
+writer is then exactly `stepWriterNoTimer`, for which `C08_timeout_alternative_needed_witness` proves a deadlock. -/
+
+theorem stepD_armed_irrelevant (s : St) (idx : Nat) (ph : Phase) (h : restingW idx ph) (h5 : idx ≠ 5) :
+    stepD (compile fn_runBatchWriter) s idx ph false = stepD (compile fn_runBatchWriter) s idx ph true := by
+  rw [C08_loop_compile]
+  rcases h with ⟨hi, rfl⟩ | ⟨hi, hp⟩ | ⟨hi, hp⟩
+  · rcases hi with rfl | rfl | rfl | rfl | rfl
+    · simp [stepD, restStep]
+    · simp [stepD, restStep]
+    · exact absurd rfl h5
+    · simp [stepD, restStep, selectAlt]
+    · simp [stepD, restStep]
+  · rcases hi with rfl | rfl <;> simp [stepD, restStep]
+  · rcases hi with rfl | rfl | rfl | rfl <;> simp [stepD, restStep]
+
+theorem noTimer_eq_of_not_sel (s : St) (h : s.wpc ≠ .sel) : stepWriterNoTimer s = stepWriter s := by
+  unfold stepWriterNoTimer
+  split
+  · rename_i hs; exact absurd hs h
+  · rfl
+
+/-- **A nil timer channel gives the model `sysNoTimer`'s writer.** -/
+theorem C08_nil_timer_channel_is_notimer_model (s : St) (idx : Nat) (ph : Phase) (h : restingW idx ph) :
+    stepWriterNoTimer (absW s idx ph) =
+      (stepD (compile fn_runBatchWriter) (absW s idx ph) idx ph false).map (fun x => absW x.1 x.2.1 x.2.2) := by
+  by_cases h5 : idx = 5
+  · subst h5
+    have hp : ph = .top := by
+      rcases h with ⟨_, hp⟩ | ⟨hi, _⟩ | ⟨hi, _⟩
+      · exact hp
+      · rcases hi with hi | hi <;> simp at hi
+      · rcases hi with hi | hi | hi | hi <;> simp at hi
+    subst hp
+    rw [C08_loop_compile]
+    cases hq : s.queue <;> by_cases hf : s.flushCh <;>
+      simp [stepWriterNoTimer, recvStep, stepD, restStep, selectAlt, runLocal, localStep, absW, wpcIdx, hq, hf]
+  · rw [stepD_armed_irrelevant _ idx ph h h5, ← C08_model_writer_is_source s idx ph h]
+    apply noTimer_eq_of_not_sel
+    rcases h with ⟨hi, rfl⟩ | ⟨hi, hp⟩ | ⟨hi, hp⟩
+    · rcases hi with rfl | rfl | rfl | rfl | rfl <;> simp [absW, wpcIdx] at h5 ⊢
+    · rcases hi with rfl | rfl <;> rcases hp with rfl | rfl | rfl <;> simp [absW, wpcIdx]
+    · rcases hi with rfl | rfl | rfl | rfl <;> rcases hp with rfl | rfl <;> simp [absW, wpcIdx]
+
 end Hive.BatchWriter
